@@ -20,6 +20,7 @@ from .transforms import (
 )
 from .utils import (
     AspireFile,
+    _dtype_to_name,
     function_id,
     load_from_h5_file,
     recursively_save_to_h5_file,
@@ -715,6 +716,7 @@ class Aspire:
             "flow_backend": self.flow_backend,
             "flow_kwargs": self.flow_kwargs,
             "eps": self.eps,
+            "dtype": _dtype_to_name(self.dtype),
         }
         if hasattr(self, "_last_sampler_type"):
             config["sampler_type"] = self._last_sampler_type
@@ -831,8 +833,10 @@ class Aspire:
             config_dict["xp"] = resolve_xp(config_dict["xp"])
         config_dict["log_likelihood"] = log_likelihood
         config_dict["log_prior"] = log_prior
+        # Flow options are passed to the constructor as keyword arguments
+        flow_kwargs = config_dict.pop("flow_kwargs", None) or {}
 
-        aspire = Aspire(**config_dict)
+        aspire = Aspire(**config_dict, **flow_kwargs)
 
         with AspireFile(file_path, "r") as h5_file:
             if flow_path in h5_file:
